@@ -83,6 +83,37 @@ impl Extension {
         Ok(())
     }
 
+    /// The URL of an extension becomes an XML namespace name bound to the extension's prefix.
+    pub(crate) fn validate_url(url: &str, registered: &[Extension]) -> Result<()> {
+        if url.is_empty() {
+            Error::invalid("The URL of an extension must not be empty")?
+        }
+        let reserved = [
+            crate::xml::E57_NAMESPACE_URL,
+            "http://www.w3.org/XML/1998/namespace",
+            "http://www.w3.org/2000/xmlns/",
+        ];
+        if reserved.contains(&url) {
+            Error::invalid(format!(
+                "The URL '{url}' is reserved and cannot be used for an extension"
+            ))?
+        }
+        let xml_chars = url.chars().all(|c| {
+            matches!(c, '\u{9}' | '\u{A}' | '\u{D}' | '\u{20}'..='\u{D7FF}' | '\u{E000}'..='\u{FFFD}' | '\u{10000}'..='\u{10FFFF}')
+        });
+        if !xml_chars {
+            Error::invalid("The URL of an extension contains characters that XML cannot store")?
+        }
+        // Two names for the same namespace cannot be told apart when reading the file
+        if let Some(other) = registered.iter().find(|e| e.url == url) {
+            Error::invalid(format!(
+                "The URL '{url}' is already used by the extension '{}'",
+                other.namespace
+            ))?
+        }
+        Ok(())
+    }
+
     pub(crate) fn validate_name(name: &str) -> Result<()> {
         if name.is_empty() {
             Error::invalid("Strings used as XML namespaces or attributes must not be empty")?
